@@ -8,6 +8,7 @@ SPEC = {'id': 'C11',
  'modules': [_P, _T],
  'theorems': [(_P, _N + 'path_roundtrip'),
               (_P, _N + 'encodePath_decodePath'),
+              (_P, _N + 'encodePath_data_unambiguous'),
               (_P, _N + 'path_errors'),
               (_P, _N + 'amp_endpoint'),
               (_P, _N + 'amp_equals_post'),
